@@ -92,3 +92,18 @@ Fixpoint conns_step (ps : list pipe) (c : nat) (mv : move) : list pipe :=
   | [] => []
   | p :: r => match c with O => pipe_step p mv :: r | S c' => p :: conns_step r c' mv end
   end.
+
+(* ---- the writer (conn.go: Conn.Write under the writer goroutine of acceptor.go / initiator.go) ----
+   Hand-offs are written whole and in order. When the transport takes only part of a write (the
+   write deadline passes, the connection breaks) the connection is cancelled: nothing more is
+   written. [fail_at = Some (k, keep)]: the write of hand-off k (0-based) takes [keep] bytes. *)
+Fixpoint writer (msgs : list bytes) (fail_at : option (nat * nat)) : bytes :=
+  match msgs with
+  | [] => []
+  | m :: r =>
+      match fail_at with
+      | Some (O, keep) => firstn keep m
+      | Some (S k, keep) => m ++ writer r (Some (k, keep))
+      | None => m ++ writer r None
+      end
+  end.
